@@ -8,6 +8,9 @@
 //! Examples contain combinatoric usage, for derive usage you should create a parser function and
 //! use `external` annotation.
 
+#[cfg(bpaf_verif)]
+#[allow(unused_imports)]
+use crate::verif::std;
 use crate::{construct, literal, parsers::NamedArg, short, Parser};
 
 /// `--verbose` and `--quiet` flags with results encoded as number
